@@ -1,6 +1,7 @@
 package mon
 
 import (
+	"context"
 	"encoding/json"
 	"fmt"
 	"math/big"
@@ -241,3 +242,108 @@ func c06MarshalCases() []c06MarshalCase {
 	}
 	return out
 }
+
+// c06.mixed: runs that end in different ways at the same time on one Code — drained to the end, cancelled after the
+// first value and then drained, abandoned, advanced again after the end, started with too many or too few variable
+// values. The complete runs must give what the run alone gives, the refused ones their error, every time.
+
+type c06MixedCase struct {
+	Src   string
+	Input run.TV
+}
+
+var kC06Mixed = run.NewKind("c06.mixed", func(c *run.Ctx, t c06MixedCase) *run.Fail {
+	res := run.Compile(t.Src, gojq.WithVariables([]string{"$x"}))
+	if res.Code == nil {
+		c.Inconclusive("does-not-compile")
+		return nil
+	}
+	code := res.Code
+	base := run.RunCode(code, run.DeepCopy(t.Input.V), []any{"X"}, defBudget, 500)
+	if base.End != run.EndOK && base.End != run.EndError {
+		c.Inconclusive("budget")
+		return nil
+	}
+	want := run.TraceDesc(base)
+	before := raceLogSize()
+	var wg sync.WaitGroup
+	var mism atomic.Int64
+	var first atomic.Value
+	note := func(format string, a ...any) {
+		mism.Add(1)
+		first.CompareAndSwap(nil, fmt.Sprintf(format, a...))
+	}
+	start := make(chan struct{})
+	for g := 0; g < 8; g++ {
+		wg.Add(1)
+		go func(g int) {
+			defer wg.Done()
+			defer func() {
+				if r := recover(); r != nil {
+					note("goroutine %d: panic %v", g, r)
+				}
+			}()
+			<-start
+			for i := 0; i < 25; i++ {
+				switch (g + i) % 5 {
+				case 0, 1: // a complete run
+					if got := run.TraceDesc(run.RunCode(code, run.DeepCopy(t.Input.V), []any{"X"}, defBudget, 500)); got != want {
+						note("goroutine %d, round %d: a complete run gave %s; alone: %s", g, i, run.Clip(got), run.Clip(want))
+					}
+				case 2: // cancelled after the first value, then drained, then advanced again
+					ctx, cancel := context.WithCancel(context.Background())
+					it := code.RunWithContext(ctx, run.DeepCopy(t.Input.V), "X")
+					it.Next()
+					cancel()
+					for k := 0; k < 600; k++ {
+						if _, ok := it.Next(); !ok {
+							break
+						}
+					}
+					it.Next()
+					it.Next()
+				case 3: // too many / too few values: one error, then the end
+					for _, vals := range [][]any{{1, 2, 3}, {}} {
+						it := code.Run(nil, vals...)
+						v, ok := it.Next()
+						if _, isErr := v.(error); !ok || !isErr {
+							note("goroutine %d, round %d: a run with %d values for 1 variable gave (%v, %v) instead of an error value", g, i, len(vals), v, ok)
+						}
+						if v2, ok2 := it.Next(); ok2 {
+							note("goroutine %d, round %d: a refused run went on with %v", g, i, v2)
+						}
+					}
+				default: // abandoned after one value; and a finished one advanced again
+					it := code.Run(run.DeepCopy(t.Input.V), "X")
+					it.Next()
+					it2 := code.Run(run.DeepCopy(t.Input.V), "X")
+					for k := 0; k < 600; k++ {
+						if _, ok := it2.Next(); !ok {
+							break
+						}
+					}
+					if v, ok := it2.Next(); ok {
+						note("goroutine %d, round %d: a finished iterator returned (%v, true)", g, i, v)
+					}
+				}
+			}
+		}(g)
+	}
+	close(start)
+	wg.Wait()
+	c.Count("mixed_runs", 8*25)
+	if n := mism.Load(); n > 0 {
+		return run.Failf("%q: %d of 200 mixed concurrent runs misbehaved; first: %v", t.Src, n, first.Load())
+	}
+	if after := raceLogSize(); after > before {
+		rep := raceLogFrom(before)
+		if strings.Contains(rep, "WARNING: DATA RACE") && (strings.Contains(rep, "github.com/itchyny/gojq") || strings.Contains(rep, "/repo/")) {
+			return &run.Fail{Detail: fmt.Sprintf("%q: the race detector reported a data race during mixed runs:\n%s", t.Src, run.Clip(raceSummary(rep)))}
+		}
+	}
+	c.Nontrivial(t.Src)
+	return nil
+})
+
+var c06MixedSrcs = []string{"[.[] | . * 2] | ., length, (.[] | select(. % 3 == 0))", ".[] | . + 1", "[.[] | tostring] | join(\",\"), $x", "range(5), .[0]", "reduce .[] as $i (0; . + $i), (.[] | select(. > 2))", "[paths] | length, (.. | numbers)",
+	"path(.[]), ($x | ascii_downcase)", ".[] as $v | [$v, $x]", "first(.[]), last(.[]), (.[] | error?)", "label $l | (.[] | if . > 3 then ., break $l else . end)", "[limit(3; .[])], (.[1:] | .[])", "try (.[] | if . == 4 then error(\"four\") else . end) catch ., 9"}
